@@ -87,6 +87,9 @@ pub fn header_json_with(h: &Value, shared: &str) -> Option<Value> {
   if b(&h["xc"]) {
     o.insert("x-c".into(), json!("custom value"));
   }
+  if h.get("xa").and_then(|v| v.as_bool()).unwrap_or(false) {
+    o.insert("a-trace".into(), json!("another custom value"));
+  }
   if b(&h["exp"]) {
     o.insert("exp".into(), json!(1_700_000_000));
   }
